@@ -188,7 +188,7 @@ fn compare_values_with_nulls(
 /// comparator makes it panic): strings sort before booleans, booleans before
 /// numbers; integers and floats compare by their exact numeric value, NaN after
 /// every other number; values of any other kind sort first and tie with each other.
-fn compare_values(a: &Value, b: &Value) -> Ordering {
+pub(crate) fn compare_values(a: &Value, b: &Value) -> Ordering {
     match (a, b) {
         (Value::Bool(a), Value::Bool(b)) => a.cmp(b),
         (Value::Int64(a), Value::Int64(b)) => a.cmp(b),
